@@ -41,6 +41,7 @@ type gen struct {
 	confirm     map[[2]int]bool
 	wedged      bool
 	dist        map[string]int
+	canary      int
 	raw         map[int]string // connections still in the handshake: id -> stage (s, t, k), "x" = the broker should have dropped it
 	rawOrder    []int
 }
@@ -454,6 +455,63 @@ func (g *gen) stepHandshake() bool {
 	return true
 }
 
+// stepHostile: one attack, then the canary. Attacks: a malformed-but-framed method or a heartbeat on a live connection
+// (the model knows these), or hostile bytes (kinds of hostileBytes) on a connection in any stage.
+func (g *gen) stepHostile() {
+	if g.canary == 0 {
+		g.nconn++
+		g.canary = g.nconn
+		g.do(fmt.Sprintf("OPEN %d", g.canary))
+		g.do(fmt.Sprintf("CH %d 1", g.canary))
+		g.do(fmt.Sprintf("QD %d 1 canary 0 0 0 0 0", g.canary))
+		return
+	}
+	// a victim connection: fresh socket in some stage of the handshake, or fully opened with a channel
+	g.nconn++
+	c := g.nconn
+	stage := g.r.Intn(5)
+	first := g.r.Intn(13)
+	if first == 8 {
+		stage = 1 // a tune-ok is looked at after start-ok only
+	}
+	if first == 12 {
+		stage = 4
+	}
+	if stage == 4 {
+		g.do(fmt.Sprintf("OPEN %d", c))
+		g.do(fmt.Sprintf("CH %d 1", c))
+		if first == 12 || g.r.Chance(1, 2) {
+			g.do(fmt.Sprintf("XD %d 1 hx headers 0 0 0 0 0", c))
+			g.do(fmt.Sprintf("QD %d 1 hq 0 0 0 0 0", c))
+		}
+	} else {
+		g.do(fmt.Sprintf("ACCEPT %d", c))
+		if stage >= 1 {
+			g.do(fmt.Sprintf("STARTOK %d 1 PLAIN guest guest 0", c))
+		}
+		if stage >= 2 {
+			g.do(fmt.Sprintf("TUNEOK %d 1 2047 65536", c))
+		}
+		if stage >= 3 {
+			g.do(fmt.Sprintf("COPEN %d 1 /", c))
+		}
+	}
+	n := 1 + g.r.Intn(3)
+	for i := 0; i < n; i++ {
+		k := g.r.Intn(13)
+		if i == 0 {
+			k = first
+		}
+		g.do(fmt.Sprintf("RAW %d %d %d", c, k, g.r.Intn(1<<20)))
+	}
+	g.uid++
+	g.do(fmt.Sprintf("PUB %d 1 - canary 0 0 0 %d 4", g.canary, g.uid))
+	g.do(fmt.Sprintf("GET %d 1 canary 1", g.canary))
+	if g.r.Chance(1, 2) {
+		g.do(fmt.Sprintf("DROP %d", c))
+	}
+}
+
 func (g *gen) bs(b bool) string {
 	if b {
 		return "1"
@@ -510,6 +568,19 @@ func (g *gen) stepRandom() {
 	if focus == "flow" && g.r.Chance(3, 5) {
 		// the delivery loop: publish, consume, settle, windows, flow, cancel
 		k = []int{200, 200, 200, 480, 480, 700, 700, 700, 810, 845, 570, 600}[g.r.Intn(12)]
+	}
+	if focus == "hostile" && g.r.Chance(1, 6) {
+		// frames the decoder or the dispatcher must refuse: undecodable method, heartbeat on a channel
+		hh := h
+		if g.r.Chance(1, 3) {
+			hh = 0
+		}
+		if g.r.Chance(2, 3) {
+			g.do(fmt.Sprintf("BADM %d %d %d", c, hh, g.r.Intn(5)))
+		} else {
+			g.do(fmt.Sprintf("HB %d %d", c, hh))
+		}
+		return
 	}
 	if focus == "exclusive" && g.r.Chance(3, 5) {
 		// everything that names a queue: declare (also passive), bind, unbind, purge, delete, consume, get, publish
@@ -843,7 +914,11 @@ func genSession(seed uint64, idx int, steps int, kind string, work string, settl
 	guard := 0
 	for g.nsteps < steps && !g.wedged && guard < steps*20 {
 		guard++
-		g.stepRandom()
+		if focus == "hostile" && kind == "racy" {
+			g.stepHostile()
+		} else {
+			g.stepRandom()
+		}
 	}
 	_ = enc.Encode(map[string]interface{}{"end": id, "dist": g.dist})
 	return nil
